@@ -326,6 +326,8 @@ def finish(prop, violations, known_lines):
     """Print KNOWN-FINDING / VIOLATION lines and exit."""
     for k in known_lines:
         print("KNOWN-FINDING: property=%s %s" % (prop, k), flush=True)
-    for v in violations:
+    for v in violations[:25]:
         print("VIOLATION property=%s replay=%s" % (prop, v), flush=True)
+    if len(violations) > 25:
+        print("... %d more violations (replay files under work/violations/)" % (len(violations) - 25), flush=True)
     sys.exit(1 if violations else 0)
